@@ -33,8 +33,10 @@ Definition tgt (s : sv) : option content := target (s_disk s).
 Definition newc : option content := Some (CW data n n).
 
 Inductive Sh (T : option content) : nat -> sv -> Prop :=
-| ShRun : forall k s, s_disk s = {| target := T; tmp := Some (CW data k n) |} -> s_ctl s = CRun -> s_err s = false -> Sh T k s
-| ShFail : forall k s, tgt s = T -> s_ctl s = CFail -> s_err s = true -> (exists o, f = Some (o, KErr)) -> Sh T k s
+| ShRun : forall k s, s_disk s = {| target := T; tmp := Some (CW data k n) |} -> s_ctl s = CRun -> s_err s = false ->
+    s_done s = false -> Sh T k s
+| ShFail : forall k s, tgt s = T -> s_ctl s = CFail -> s_err s = true -> s_done s = false ->
+    (exists o, f = Some (o, KErr)) -> Sh T k s
 | ShDead : forall k s, tgt s = T -> s_ctl s = CDead -> (exists o kd, f = Some (o, kd) /\ kd <> KErr) -> Sh T k s.
 
 Lemma fault_at_some : forall o k, fault_at f o = Some k -> f = Some (o, k).
@@ -62,7 +64,7 @@ Qed.
 
 Lemma sh_write : forall T k s i, Sh T k s -> Sh T (S k) (exec f data n s (FWrite i)).
 Proof.
-  intros T k [[t tm] c op er] i H. inversion H; subst; simpl in *; subst; unfold exec, enabled, apply_effect; simpl.
+  intros T k [[t tm] c op er dn] i H. inversion H; subst; simpl in *; subst; unfold exec, enabled, apply_effect; simpl.
   - inversion H0; subst. fault_cases (FWrite i); simpl; sh_solve.
   - sh_solve.
   - sh_solve.
@@ -77,10 +79,10 @@ Qed.
 
 Lemma sh_close : forall T k s, Sh T k s -> Sh T k (exec f data n s FClose).
 Proof.
-  intros T k [[t tm] c op er] H. inversion H; subst; simpl in *; subst; unfold exec, enabled, apply_effect; simpl;
+  intros T k [[t tm] c op er dn] H. inversion H; subst; simpl in *; subst; unfold exec, enabled, apply_effect; simpl;
     destruct op; simpl; try sh_solve.
   - inversion H0; subst. fault_cases FClose; simpl; sh_solve.
-  - destruct H3 as [o Ho]. fault_cases FClose; simpl; try sh_solve; rewrite Ho in E; discriminate.
+  - destruct H4 as [o Ho]. fault_cases FClose; simpl; try sh_solve; rewrite Ho in E; discriminate.
 Qed.
 
 (* what one save leaves behind: the complete classification *)
@@ -88,9 +90,10 @@ Definition is_crash_fault : Prop := exists o kd, f = Some (o, kd) /\ kd <> KErr.
 Definition is_err_fault (o : fsop) : Prop := f = Some (o, KErr).
 
 Inductive outcome (T : option content) (s : sv) : Prop :=
-| OutOk : sres_of s = SOk -> s_disk s = {| target := newc; tmp := None |} -> outcome T s
+| OutOk : sres_of s = SOk -> s_disk s = {| target := newc; tmp := None |} -> s_done s = true -> outcome T s
 | OutCrash : sres_of s = SCrash -> is_crash_fault -> (tgt s = T \/ tgt s = newc) -> outcome T s
-| OutErr : forall o, sres_of s = SErr -> is_err_fault o -> (tgt s = T \/ (o = FRemove /\ tgt s = newc)) -> outcome T s.
+| OutErr : forall o, sres_of s = SErr -> is_err_fault o ->
+    ((tgt s = T /\ s_done s = false) \/ (o = FRemove /\ tgt s = newc /\ s_done s = true)) -> outcome T s.
 
 Ltac out_solve :=
   first [ solve [apply OutOk; unfold sres_of, newc; simpl; auto]
@@ -100,12 +103,12 @@ Ltac out_solve :=
 Lemma rename_remove : forall T s, Sh T n s ->
   outcome T (exec f data n (exec f data n s FRename) FRemove).
 Proof.
-  intros T [[t tm] c op er] H. inversion H; subst; simpl in *; subst.
+  intros T [[t tm] c op er dn] H. inversion H; subst; simpl in *; subst.
   - inversion H0; subst. unfold exec at 2. unfold enabled, apply_effect. simpl.
     fault_cases FRename; simpl; unfold exec, enabled, apply_effect; simpl; try out_solve.
     + rewrite E. simpl. out_solve.
     + fault_cases FRemove; simpl; out_solve.
-  - destruct H3 as [o Ho]. unfold exec, enabled, apply_effect. simpl.
+  - destruct H4 as [o Ho]. unfold exec, enabled, apply_effect. simpl.
     fault_cases FRemove; simpl; try out_solve; rewrite Ho in E; discriminate.
   - unfold exec, enabled. simpl. out_solve.
 Qed.
@@ -120,32 +123,23 @@ Qed.
 End SaveFile.
 
 (* ------------------------------------------------------------------ consequences for the stored file *)
-Definition no_err (f : fault) : Prop := forall o, f <> Some (o, KErr).
-
 Lemma save_file_target : forall f data n d,
   target (s_disk (save_file f data n d)) = target d \/ target (s_disk (save_file f data n d)) = Some (CW data n n).
 Proof.
-  intros. destruct (save_file_outcome f data n d) as [H1 H2|H1 H2 H3|o H1 H2 H3].
+  intros. destruct (save_file_outcome f data n d) as [H1 H2 H3|H1 H2 H3|o H1 H2 H3].
   - right. now rewrite H2.
   - exact H3.
-  - destruct H3 as [H3|[_ H3]]; auto.
+  - destruct H3 as [[H3 _]|[_ [H3 _]]]; auto.
 Qed.
 
 Lemma save_file_nofault : forall data n d,
-  sres_of (save_file None data n d) = SOk /\ s_disk (save_file None data n d) = {| target := Some (CW data n n); tmp := None |}.
+  sres_of (save_file None data n d) = SOk /\ s_disk (save_file None data n d) = {| target := Some (CW data n n); tmp := None |}
+  /\ s_done (save_file None data n d) = true.
 Proof.
-  intros. destruct (save_file_outcome None data n d) as [H1 H2|H1 H2 H3|o H1 H2 H3].
+  intros. destruct (save_file_outcome None data n d) as [H1 H2 H3|H1 H2 H3|o H1 H2 H3].
   - auto.
   - destruct H2 as [o [kd [H2 _]]]. discriminate.
   - discriminate.
-Qed.
-
-Lemma save_file_no_err : forall f data n d, no_err f ->
-  (sres_of (save_file f data n d) = SOk /\ s_disk (save_file f data n d) = {| target := Some (CW data n n); tmp := None |})
-  \/ sres_of (save_file f data n d) = SCrash.
-Proof.
-  intros f data n d Hf. destruct (save_file_outcome f data n d) as [H1 H2|H1 H2 H3|o H1 H2 H3]; auto.
-  exfalso. exact (Hf o H2).
 Qed.
 
 (* an I/O error before the rename leaves the previous file; the only error after it is the one at remove *)
@@ -153,8 +147,19 @@ Lemma save_file_err : forall f data n d, sres_of (save_file f data n d) = SErr -
   exists o, f = Some (o, KErr) /\
     (target (s_disk (save_file f data n d)) = target d \/ (o = FRemove /\ target (s_disk (save_file f data n d)) = Some (CW data n n))).
 Proof.
-  intros f data n d H. destruct (save_file_outcome f data n d) as [H1 H2|H1 H2 H3|o H1 H2 H3]; try congruence.
-  exists o. split; auto.
+  intros f data n d H. destruct (save_file_outcome f data n d) as [H1 H2 H3|H1 H2 H3|o H1 H2 H3]; try congruence.
+  exists o. split; auto. destruct H3 as [[H3 _]|[E [H3 _]]]; auto.
+Qed.
+
+(* the statement after the rename is reached exactly when the new file is in place (unless the process died) *)
+Lemma save_file_done : forall f data n d, sres_of (save_file f data n d) <> SCrash ->
+  (s_done (save_file f data n d) = true /\ target (s_disk (save_file f data n d)) = Some (CW data n n)) \/
+  (s_done (save_file f data n d) = false /\ target (s_disk (save_file f data n d)) = target d /\
+   sres_of (save_file f data n d) = SErr).
+Proof.
+  intros f data n d H. destruct (save_file_outcome f data n d) as [H1 H2 H3|H1 H2 H3|o H1 H2 H3]; try congruence.
+  - left. split; auto. now rewrite H2.
+  - destruct H3 as [[H3 H4]|[_ [H3 H4]]]; [right|left]; auto.
 Qed.
 
 Lemma parse_complete : forall d n, parse (CW d n n) = PJObj d.
@@ -186,8 +191,11 @@ Definition in_sync (d : disk) (m : mstate) : Prop :=
 Definition holds (d : disk) (data : amap) : Prop :=
   exists c p, target d = Some c /\ parse c = PJObj p /\ (p = data \/ snap_eqb data p = true).
 
+Lemma in_sync_target : forall d d' m, target d' = target d -> in_sync d m -> in_sync d' m.
+Proof. intros d d' m H. unfold in_sync. now rewrite H. Qed.
+
 Definition post (f : fault) (n : nat) (d : disk) (m : mstate) (d' : disk) (m' : mstate) (dead : bool) : Prop :=
-  tstep n d d' /\ (no_err f -> in_sync d m -> dead = true \/ in_sync d' m').
+  tstep n d d' /\ (in_sync d m -> dead = true \/ in_sync d' m').
 
 Lemma save_params_post : forall M f n d m,
   let '(d', m', o) := save_params M f n d m in post f n d m d' m' (crashed o).
@@ -197,11 +205,14 @@ Proof.
   - destruct (differs data (pdata m)) eqn:D.
     + split.
       * destruct (save_file_target f data n d) as [H|H]; [left; exact H|right; eauto].
-      * intros Hf _. destruct (save_file_no_err f data n d Hf) as [[H1 H2]|H1]; rewrite H1; simpl.
-        -- right. unfold in_sync. simpl. right. rewrite H2. simpl. eexists; split; [reflexivity|apply parse_complete].
-        -- left; reflexivity.
-    + split; [apply tstep_refl|]. intros _ H. right. exact H.
-  - split; [apply tstep_refl|]. intros _ H. right. exact H.
+      * intros Hs. destruct (sres_of (save_file f data n d)) eqn:R; simpl; auto.
+        -- right. destruct (save_file_done f data n d) as [[H1 H2]|[H1 [H2 H3]]]; try congruence.
+           rewrite H1. unfold in_sync. simpl. right. rewrite H2. eexists; split; [reflexivity|apply parse_complete].
+        -- right. destruct (save_file_done f data n d) as [[H1 H2]|[H1 [H2 H3]]]; try congruence.
+           ++ rewrite H1. unfold in_sync. simpl. right. rewrite H2. eexists; split; [reflexivity|apply parse_complete].
+           ++ rewrite H1. eapply in_sync_target; eauto.
+    + split; [apply tstep_refl|]. intros H. right. exact H.
+  - split; [apply tstep_refl|]. intros H. right. exact H.
 Qed.
 
 Lemma save_parameters_post : forall M f n d m,
@@ -209,7 +220,7 @@ Lemma save_parameters_post : forall M f n d m,
 Proof.
   intros M f n d m. unfold save_parameters. destruct (wdict m).
   - apply save_params_post.
-  - split; [apply tstep_refl|]. intros _ H; right; exact H.
+  - split; [apply tstep_refl|]. intros H; right; exact H.
 Qed.
 
 Lemma in_sync_vals : forall d m v, in_sync d (set_vals m v) <-> in_sync d m.
@@ -225,8 +236,8 @@ Proof.
   intros M f n d m p v. unfold announce. destruct (is_auto M p).
   - pose proof (save_parameters_post M f n d (set_vals m (aset p v (vals m)))) as H.
     destruct (save_parameters M f n d (set_vals m (aset p v (vals m)))) as [[d' m'] o].
-    destruct H as [H1 H2]. split; [exact H1|]. intros Hf Hs. apply H2; [exact Hf|]. now apply in_sync_vals.
-  - split; [apply tstep_refl|]. intros _ H; right. now apply in_sync_vals.
+    destruct H as [H1 H2]. split; [exact H1|]. intros Hs. apply H2. now apply in_sync_vals.
+  - split; [apply tstep_refl|]. intros H; right. now apply in_sync_vals.
 Qed.
 
 (* a chain of posts *)
@@ -238,7 +249,7 @@ Lemma post_chain : forall f n d m d1 m1 d2 m2 dead2,
 Proof.
   intros f n d m d1 m1 d2 m2 dead2 [A1 A2] [B1 B2]. split.
   - eapply tstep_trans; eauto.
-  - intros Hf Hs. destruct (A2 Hf Hs) as [X|X]; [discriminate|]. auto.
+  - intros Hs. destruct (A2 Hs) as [X|X]; [discriminate|]. auto.
 Qed.
 
 Lemma wi_step_inv : forall M f n d m acc pv, inv_acc f n d m acc -> inv_acc f n d m (wi_step M f n acc pv).
@@ -248,7 +259,7 @@ Proof.
   pose proof (announce_post M f n d1 (set_wdict m1 (adel (fst pv) (wdict m1))) (fst pv) v) as P.
   destruct (announce M f n d1 (set_wdict m1 (adel (fst pv) (wdict m1))) (fst pv) v) as [[d2 m2] dead2].
   simpl in *. eapply post_chain; [exact H|]. destruct P as [P1 P2]. split; [exact P1|].
-  intros Hf Hs. apply P2; [exact Hf|]. now apply in_sync_wdict.
+  intros Hs. apply P2. now apply in_sync_wdict.
 Qed.
 
 Lemma fold_wi_inv : forall M f n d m l acc, inv_acc f n d m acc -> inv_acc f n d m (fold_left (wi_step M f n) l acc).
@@ -260,7 +271,7 @@ Proof.
   intros M f n d m. unfold write_init.
   pose proof (fold_wi_inv M f n d m (wdict m) (d, m, false)) as H.
   destruct (fold_left (wi_step M f n) (wdict m) (d, m, false)) as [[d' m'] dead]. apply H.
-  simpl. split; [apply tstep_refl|]. intros _ Hs; right; exact Hs.
+  simpl. split; [apply tstep_refl|]. intros Hs; right; exact Hs.
 Qed.
 
 (* ------------------------------------------------------------------ whole operations *)
@@ -304,19 +315,19 @@ Qed.
 Lemma finish_sync : forall d m dead, dead = true \/ in_sync d m -> sync (fst (finish d m dead)).
 Proof. intros d m dead H. unfold finish, sync. destruct dead; simpl; auto. destruct H; [discriminate|auto]. Qed.
 
-Lemma do_init_sync : forall M cfg f n d, no_err f -> sync (fst (do_init M cfg f n d)).
+Lemma do_init_sync : forall M cfg f n d, sync (fst (do_init M cfg f n d)).
 Proof.
-  intros M cfg f n d Hf. unfold do_init. destruct (load_file M d) as [|raw loaded] eqn:L; [exact I|].
+  intros M cfg f n d. unfold do_init. destruct (load_file M d) as [raw loaded] eqn:L.
   pose proof (save_params_post M f n d (init_state M cfg raw loaded)) as P.
   destruct (save_params M f n d (init_state M cfg raw loaded)) as [[d' m'] o].
   destruct P as [_ P]. assert (S0 : in_sync d (init_state M cfg raw loaded)).
   { unfold in_sync. rewrite init_state_pdata. eapply load_file_sync; eauto. }
-  specialize (P Hf S0). unfold sync. destruct o as [|[]|]; simpl in *; auto; destruct P; auto; discriminate.
+  specialize (P S0). unfold sync. destruct o as [|[]|]; simpl in *; auto; destruct P; auto; discriminate.
 Qed.
 
 Lemma do_init_tstep : forall M cfg f n d, tstep n d (dk (fst (do_init M cfg f n d))).
 Proof.
-  intros M cfg f n d. unfold do_init. destruct (load_file M d) as [|raw loaded]; simpl; [apply tstep_refl|].
+  intros M cfg f n d. unfold do_init. destruct (load_file M d) as [raw loaded].
   pose proof (save_params_post M f n d (init_state M cfg raw loaded)) as P.
   destruct (save_params M f n d (init_state M cfg raw loaded)) as [[d' m'] o].
   destruct P as [P _]. destruct o as [|[]|]; simpl; auto.
@@ -327,38 +338,38 @@ Proof.
   intros. unfold load_step. destruct (nth_error M (fst kv)) as [p|]; auto. destruct (p_hasw p); auto.
 Qed.
 
+(* every operation with every fault: the stored file stays or becomes a complete document, and persistentData
+   keeps describing the stored file *)
 Lemma step_post : forall M s o, is_corrupt o = false ->
-  tstep (op_n o) (dk s) (dk (fst (step M s o))) /\
-  (no_err (op_fault o) -> sync s -> sync (fst (step M s o))).
+  tstep (op_n o) (dk s) (dk (fst (step M s o))) /\ (sync s -> sync (fst (step M s o))).
 Proof.
   intros M s o Hc. destruct o; try discriminate; simpl.
-  - split; [apply do_init_tstep|]. intros Hf _. now apply do_init_sync.
+  - split; [apply do_init_tstep|]. intros _. apply do_init_sync.
   - destruct (md s) as [m|] eqn:E; simpl; [|split; [apply tstep_refl|auto]].
     pose proof (announce_post M f n (dk s) m p v) as P.
     destruct (announce M f n (dk s) m p v) as [[d' m'] dead]. destruct P as [P1 P2].
     split; [unfold finish; destruct dead; exact P1|].
-    intros Hf Hs. apply finish_sync. apply P2; auto. unfold sync in Hs. now rewrite E in Hs.
+    intros Hs. apply finish_sync. apply P2. unfold sync in Hs. now rewrite E in Hs.
   - destruct (md s) as [m|] eqn:E; simpl; [|split; [apply tstep_refl|auto]].
     unfold do_save. pose proof (save_parameters_post M f n (dk s) m) as P.
     destruct (save_parameters M f n (dk s) m) as [[d' m'] o]. destruct P as [P1 P2].
     split; [destruct o as [|[]|]; exact P1|].
-    intros Hf Hs. unfold sync in Hs. rewrite E in Hs. specialize (P2 Hf Hs).
+    intros Hs. unfold sync in Hs. rewrite E in Hs. specialize (P2 Hs).
     destruct o as [|[]|]; simpl in *; unfold sync; simpl; auto; destruct P2; auto; discriminate.
   - destruct (md s) as [m|] eqn:E; simpl; [|split; [apply tstep_refl|auto]].
     pose proof (write_init_post M f n (dk s) m) as P.
     destruct (write_init M f n (dk s) m) as [[d' m'] dead]. destruct P as [P1 P2].
     split; [unfold finish; destruct dead; exact P1|].
-    intros Hf Hs. apply finish_sync. apply P2; auto. unfold sync in Hs. now rewrite E in Hs.
+    intros Hs. apply finish_sync. apply P2. unfold sync in Hs. now rewrite E in Hs.
   - destruct (md s) as [m|] eqn:E; simpl; [|split; [apply tstep_refl|auto]].
-    unfold do_load. destruct (load_file M (dk s)) as [|raw loaded] eqn:L; simpl.
-    + split; [apply tstep_refl|]. intros _ _. unfold sync, in_sync. simpl. exact I.
-    + pose proof (write_init_post M f n (dk s) (fold_left (load_step M) loaded (set_pdata m (Some raw)))) as P.
-      destruct (write_init M f n (dk s) (fold_left (load_step M) loaded (set_pdata m (Some raw)))) as [[d' m'] dead].
-      destruct P as [P1 P2]. split; [unfold finish; destruct dead; exact P1|].
-      intros Hf _. apply finish_sync. apply P2; auto. unfold in_sync.
-      assert (G : forall l m0, pdata (fold_left (load_step M) l m0) = pdata m0).
-      { induction l; intros; simpl; auto. rewrite IHl. apply load_step_pdata. }
-      rewrite G. simpl. eapply load_file_sync; eauto.
+    unfold do_load. destruct (load_file M (dk s)) as [raw loaded] eqn:L.
+    pose proof (write_init_post M f n (dk s) (fold_left (load_step M) loaded (set_pdata m (Some raw)))) as P.
+    destruct (write_init M f n (dk s) (fold_left (load_step M) loaded (set_pdata m (Some raw)))) as [[d' m'] dead].
+    destruct P as [P1 P2]. split; [unfold finish; destruct dead; exact P1|].
+    intros _. apply finish_sync. apply P2. unfold in_sync.
+    assert (G : forall l m0, pdata (fold_left (load_step M) l m0) = pdata m0).
+    { induction l; intros; simpl; auto. rewrite IHl. apply load_step_pdata. }
+    rewrite G. simpl. eapply load_file_sync; eauto.
   - destruct (md s) as [m|] eqn:E; simpl; [|split; [apply tstep_refl|auto]].
     unfold do_reset.
     pose proof (write_init_post M f n (dk s)
@@ -366,7 +377,7 @@ Proof.
     destruct (write_init M f n (dk s)
       (set_wdict m (fold_left (fun acc kv => aset (fst kv) (snd kv) acc) (initd m) (wdict m)))) as [[d' m'] dead].
     destruct P as [P1 P2]. split; [unfold finish; destruct dead; exact P1|].
-    intros Hf Hs. apply finish_sync. apply P2; auto. apply in_sync_wdict. unfold sync in Hs. now rewrite E in Hs.
+    intros Hs. apply finish_sync. apply P2. apply in_sync_wdict. unfold sync in Hs. now rewrite E in Hs.
 Qed.
 
 (* no partially written document is ever the stored file *)
@@ -389,12 +400,13 @@ Proof.
   induction ops; intros s Hf Hs; simpl; auto. inversion Hf; subst. apply IHops; auto. now apply step_target_ok.
 Qed.
 
-Definition clean_op (o : op) : Prop := is_corrupt o = false /\ no_err (op_fault o).
+(* nobody else replaces the stored file under the running module *)
+Definition own_op (o : op) : Prop := is_corrupt o = false.
 
-Lemma run_sync : forall M ops s, Forall clean_op ops -> sync s -> sync (run M ops s).
+Lemma run_sync : forall M ops s, Forall own_op ops -> sync s -> sync (run M ops s).
 Proof.
   induction ops; intros s Hf Hs; simpl; auto. inversion Hf; subst. apply IHops; auto.
-  destruct H1 as [C E]. apply (step_post M s a C); auto.
+  apply (step_post M s a H1); auto.
 Qed.
 
 (* a save of a synchronised module without fault puts the current snapshot on disk *)
@@ -408,7 +420,7 @@ Lemma save_reaches_disk : forall M n d m data,
 Proof.
   intros M n d m data Hw Hd Hs. unfold save_parameters, save_params. rewrite Hw, Hd.
   destruct (differs data (pdata m)) eqn:D.
-  - destruct (save_file_nofault data n d) as [H1 H2]. rewrite H1, H2. repeat split; auto.
+  - destruct (save_file_nofault data n d) as [H1 [H2 H3]]. rewrite H1, H2, H3. repeat split; auto.
     + right. exists (CW data n n), data. simpl target. repeat split; auto. apply parse_complete.
     + unfold in_sync. simpl. right. eexists; split; [reflexivity|apply parse_complete].
   - repeat split; auto. unfold differs in D. unfold in_sync in Hs. destruct (pdata m) as [p|]; [|discriminate].
@@ -418,10 +430,10 @@ Proof.
 Qed.
 
 (* ------------------------------------------------------------------ tolerant loading *)
-(* what one stored entry is worth: None = ignored (unknown key, not persistent, import raises) *)
+(* what one stored entry is worth: None = ignored (unknown key, not persistent, import / validate / export raises) *)
 Definition usable (M : mdesc) (k : nat) (j : val) : option val :=
   match nth_error M k with
-  | Some p => if persistent p then import (p_dt p) j else None
+  | Some p => if persistent p then usable_dt (p_dt p) j else None
   | None => None
   end.
 
@@ -458,23 +470,41 @@ Proof.
   - eapply IH; eauto.
 Qed.
 
-Lemma load_file_total : forall M d, (forall c, target d = Some c -> parse c <> PJOther) -> load_file M d <> LRaise.
+(* whatever the file contains, every value taken from it is the validated import of a stored value and can be
+   stored again *)
+Definition good_value (M : mdesc) (k : nat) (v : val) : Prop :=
+  exists p j x, nth_error M k = Some p /\ persistent p = true /\
+    import (p_dt p) j = Some x /\ validate (p_dt p) x = Some v /\ export (p_dt p) v <> None.
+
+Lemma usable_dt_good : forall d j v, usable_dt d j = Some v ->
+  exists x, import d j = Some x /\ validate d x = Some v /\ export d v <> None.
 Proof.
-  intros M d H. unfold load_file. destruct (target d) as [c|]; [|discriminate].
-  specialize (H c eq_refl). destruct (parse c); try discriminate. congruence.
+  intros d j v. unfold usable_dt. destruct (import d j) as [x|]; [|discriminate].
+  destruct (validate d x) as [y|] eqn:V; [|discriminate]. destruct (export d y) eqn:X; [|discriminate].
+  intros H. inversion H; subst. exists x. repeat split; auto. congruence.
 Qed.
 
-Lemma startup_ok : forall M cfg n d,
-  (forall c, target d = Some c -> parse c <> PJOther) ->
-  (forall raw loaded, load_file M d = LOk raw loaded -> snapshot_of M (vals (init_state M cfg raw loaded)) <> None) ->
-  snd (do_init M cfg None n d) = ROk /\ md (fst (do_init M cfg None n d)) <> None.
+Lemma loaded_good : forall M raw acc,
+  (forall k v, aget k acc = Some v -> good_value M k v) ->
+  forall k v, aget k (fold_left (load_entry M) raw acc) = Some v -> good_value M k v.
 Proof.
-  intros M cfg n d H1 H2. unfold do_init. pose proof (load_file_total M d H1) as L.
-  destruct (load_file M d) as [|raw loaded]; [congruence|]. specialize (H2 raw loaded eq_refl).
-  unfold save_params. destruct (snapshot_of M (vals (init_state M cfg raw loaded))) as [data|]; [|congruence].
-  destruct (differs data (pdata (init_state M cfg raw loaded))).
-  - destruct (save_file_nofault data n d) as [E1 E2]. rewrite E1. simpl. split; [reflexivity|discriminate].
-  - simpl. split; [reflexivity|discriminate].
+  induction raw as [|[k' j'] r IH]; intros acc Hacc k v H; simpl in *; [now apply Hacc|].
+  eapply IH; [|exact H]. clear H k v. intros k v H. rewrite load_entry_usable in H. simpl in H.
+  destruct (usable M k' j') as [v'|] eqn:U; [|now apply Hacc].
+  destruct (Nat.eq_dec k k') as [->|N].
+  - rewrite aget_aset_same in H. inversion H; subst. unfold usable in U.
+    destruct (nth_error M k') as [p|] eqn:Hn; [|discriminate]. destruct (persistent p) eqn:P; [|discriminate].
+    apply usable_dt_good in U. destruct U as [x [U1 [U2 U3]]]. exists p, j', x. auto.
+  - rewrite aget_aset_other in H by exact N. now apply Hacc.
+Qed.
+
+Lemma loaded_values_good : forall M d raw loaded k v,
+  load_file M d = LOk raw loaded -> aget k loaded = Some v -> good_value M k v.
+Proof.
+  intros M d raw loaded k v. unfold load_file. destruct (target d) as [c|].
+  - destruct (parse c); intros H; inversion H; subst; try (intros; discriminate).
+    apply loaded_good. intros; discriminate.
+  - intros H; inversion H; subst. intros; discriminate.
 Qed.
 
 (* ------------------------------------------------------------------ start-up precedence *)
@@ -629,9 +659,57 @@ Proof.
     exists j. split; auto. congruence.
 Qed.
 
-(* export/import of the parameters of M invert each other on the values at hand *)
+(* snapshot_of succeeds as soon as every persistent parameter has an exportable value *)
+Lemma snap_fold_total : forall vs L l0,
+  (forall i p, In (i, p) L -> persistent p = true -> exists v, aget i vs = Some v /\ export (p_dt p) v <> None) ->
+  exists data, fold_left (snapshot_step vs) L (Some l0) = Some data.
+Proof.
+  induction L as [|[k q] L IH]; intros l0 H; cbn [fold_left].
+  - eauto.
+  - assert (E : snapshot_step vs (Some l0) (k, q) =
+                if persistent q then match aget k vs with
+                                     | Some v => match export (p_dt q) v with Some j => Some (l0 ++ [(k, j)]) | None => None end
+                                     | None => None end else Some l0) by reflexivity.
+    rewrite E. clear E. destruct (persistent q) eqn:P.
+    + destruct (H k q (or_introl eq_refl) P) as [v [Hv Hx]]. rewrite Hv.
+      destruct (export (p_dt q) v) as [j|]; [|congruence]. apply IH. intros i p Hin. apply H. now right.
+    + apply IH. intros i p Hin. apply H. now right.
+Qed.
+
+Lemma snapshot_total : forall M vs,
+  (forall i p, nth_error M i = Some p -> persistent p = true -> exists v, aget i vs = Some v /\ export (p_dt p) v <> None) ->
+  snapshot_of M vs <> None.
+Proof.
+  intros M vs H. unfold snapshot_of. destruct (snap_fold_total vs (indexed M) []) as [data Hd].
+  - intros i p Hin Hp. apply indexed_keys_from in Hin. destruct Hin as [_ Hin]. rewrite Nat.sub_0_r in Hin. eauto.
+  - intros X. assert (E : Some data = None) by (etransitivity; [symmetry; exact Hd|exact X]). discriminate.
+Qed.
+
+(* the values configured and the defaults are storable (they were validated by Module.__init__ / the class) *)
+Definition base_ok (M : mdesc) (cfg : amap) : Prop :=
+  forall i p, nth_error M i = Some p -> persistent p = true ->
+    export (p_dt p) (match aget i cfg with Some v => v | None => p_default p end) <> None.
+
+(* start-up: whatever is on the disk, the module is created *)
+Lemma startup_ok : forall M cfg n d, base_ok M cfg ->
+  snd (do_init M cfg None n d) = ROk /\ md (fst (do_init M cfg None n d)) <> None.
+Proof.
+  intros M cfg n d Hb. unfold do_init. destruct (load_file M d) as [raw loaded] eqn:L.
+  assert (S : snapshot_of M (vals (init_state M cfg raw loaded)) <> None).
+  { apply snapshot_total. intros i p Hn Hp. rewrite (init_precedence M cfg raw loaded i p Hn), Hp.
+    eexists; split; [reflexivity|]. specialize (Hb i p Hn Hp).
+    destruct (aget i cfg) as [vc|]; [exact Hb|].
+    destruct (aget i loaded) as [vl|] eqn:G; [|exact Hb].
+    destruct (loaded_values_good M d raw loaded i vl L G) as [p' [j [x [A [_ [_ [_ E]]]]]]]. congruence. }
+  unfold save_params. destruct (snapshot_of M (vals (init_state M cfg raw loaded))) as [data|]; [|congruence].
+  destruct (differs data (pdata (init_state M cfg raw loaded))).
+  - destruct (save_file_nofault data n d) as [E1 [E2 E3]]. rewrite E1. simpl. split; [reflexivity|discriminate].
+  - simpl. split; [reflexivity|discriminate].
+Qed.
+
+(* export and the reading of stored entries invert each other on the values at hand *)
 Definition codec_ok (M : mdesc) (vs : amap) : Prop :=
-  forall i p v j, nth_error M i = Some p -> aget i vs = Some v -> export (p_dt p) v = Some j -> import (p_dt p) j = Some v.
+  forall i p v j, nth_error M i = Some p -> aget i vs = Some v -> export (p_dt p) v = Some j -> usable_dt (p_dt p) j = Some v.
 
 Lemma roundtrip_module : forall M vs data n cfg i p v,
   codec_ok M vs -> snapshot_of M vs = Some data ->
@@ -648,16 +726,17 @@ Proof.
     unfold usable. rewrite Hn, Hp. eapply Hc; eauto.
 Qed.
 
-(* the codec law for the scalar datatypes (no CPython table involved) *)
+(* the inversion law for the scalar datatypes (no CPython table involved): a value valid for the datatype comes back *)
 Definition scalar (d : dtype) : bool :=
   match d with DInt _ _ | DBool | DEnum _ | DStr _ _ _ | DFloat => true | _ => false end.
-Definition valid_scalar (d : dtype) (v : val) : bool :=
-  match d, v with DStr a b u, VStr s => str_ok a b u s | DStr _ _ _, _ => false | _, _ => true end.
 
-Lemma codec_scalar : forall d v j, scalar d = true -> valid_scalar d v = true -> export d v = Some j -> import d j = Some v.
+Lemma codec_scalar : forall d v j, scalar d = true -> validate d v = Some v -> export d v = Some j -> usable_dt d j = Some v.
 Proof.
-  intros d v j Hs Hv H. destruct d; try discriminate; destruct v; simpl in *; try discriminate; inversion H; subst; simpl; auto.
-  - destruct b; reflexivity.
-  - destruct (existsb (Z.eqb z) (map snd ms)) eqn:E; [|discriminate]. inversion H1; subst. simpl. now rewrite E.
-  - now rewrite Hv.
+  intros d v j Hs Hv H. unfold usable_dt.
+  destruct d; try discriminate; destruct v; simpl in *; try discriminate.
+  - inversion H; subst. simpl. destruct (Z.leb lo z && Z.leb z hi); [reflexivity|discriminate].
+  - inversion H; subst. destruct b; reflexivity.
+  - destruct (existsb (Z.eqb z) (map snd ms)) eqn:E; [|discriminate]. inversion H; subst. simpl. repeat (rewrite E; simpl). reflexivity.
+  - inversion H; subst. destruct (str_ok minc maxc utf8 s) eqn:E; [|discriminate]. simpl. repeat (rewrite E; simpl). reflexivity.
+  - inversion H; subst. reflexivity.
 Qed.
